@@ -143,6 +143,27 @@ func GenCase(t *Tape, o GenOpts) *Case {
 	if o.WideNode > 0 {
 		c.Tuples = append(c.Tuples, g.wide(c.Query, o.WideNode)...)
 	}
+	// the store stays well-formed: a relation that some traverse walks over only
+	// holds subject sets of namespaces that declare the computed relation
+	// (gadget and wide-node tuples included)
+	{
+		var kept []Tuple
+		for _, x := range c.Tuples {
+			if tns, ok := g.travRe[x.NS][x.Rel]; ok && x.Sub.Set != nil {
+				allowed := false
+				for _, n := range tns {
+					if n == x.Sub.Set.NS {
+						allowed = true
+					}
+				}
+				if !allowed {
+					continue
+				}
+			}
+			kept = append(kept, x)
+		}
+		c.Tuples = kept
+	}
 	// shuffle so that storage order is unrelated to generation order
 	for i := len(c.Tuples) - 1; i > 0; i-- {
 		j := t.Choose(i + 1)
